@@ -178,6 +178,11 @@ func genC12(rc *RunCtx) (*C1, *c12Info, bool) {
 		sc.Flusher = t.Choose(2) == 1
 	}
 	sc.Fault = FStall // nothing follows the corrupted bytes
+	if sc.Kind == KRTU && !t.Has("pos") && t.Chance(1, 3) {
+		sc.Fault = FEOF // the peer hangs up right after the corrupted reply
+		sc.FaultGap = gapOf(t)
+	}
+	sc.Hooks = !t.Has("pos") && t.Chance(1, 4) // logging hooks installed: must make no difference
 	return sc, info, true
 }
 
